@@ -33,7 +33,7 @@ for i, l in enumerate(src):
     if not l.startswith('\t') or SKIP.search(l) or l.strip() == '' or l.rstrip().endswith(('{', ',', '(', '&&', '||')):
         continue
     fn = fname(i)
-    if fn is None or fn not in have or (only and not only.search(fn)):
+    if fn is None or not (fn in have or any(h.startswith(fn + '$') for h in have)) or (only and not only.search(fn)):
         continue
     s = l.strip()
     if re.match(r'^[\w.\[\]\*]+(, [\w.\[\]\*]+)* (:=|=) ', s):
@@ -42,7 +42,7 @@ for i, l in enumerate(src):
         muts.append((i, 'delete', None))
 for i, l in enumerate(src):
     fn = fname(i) if l.startswith('\t') else None
-    if fn is None or fn not in have or (only and not only.search(fn)) or '.log.' in l or l.strip().startswith('//'):
+    if fn is None or not (fn in have or any(h.startswith(fn + '$') for h in have)) or (only and not only.search(fn)) or '.log.' in l or l.strip().startswith('//'):
         continue
     for a, b in ((' < ', ' <= '), (' <= ', ' < '), (' > ', ' >= '), (' >= ', ' > '), (' == ', ' != '), (' != ', ' == '), (' && ', ' || '), (' || ', ' && ')):
         if a in l and 'err != nil' not in l and 'err == nil' not in l:
@@ -63,7 +63,7 @@ def run(m):
         open(f, 'w').write('\n'.join(new))
         ov = os.path.join(d, 'ov.json')
         json.dump({path: f}, open(ov, 'w'))
-        targets = [fn] + [h for h in have if h.startswith(fn + '$')]
+        targets = ([fn] if fn in have else []) + [h for h in have if h.startswith(fn + '$')]
         base = fn.split('.')[-1]
         for h in sorted(have):
             if h in targets or not (h.startswith(pkg + '.') or ('(' + pkg + '.') in h or ('(*' + pkg + '.') in h):
